@@ -1363,4 +1363,69 @@ theorem unquotedLoop_chars (pre0 suf' : List Char) (hs : ∀ c r, suf' = c :: r 
     · simpa using h2
     · simpa using h3
 
+/-! ## the ground state -/
+
+/-- what survives the start of a token -/
+structure FrameG (l l' : Lexer) : Prop where
+  errout : l'.errout = l.errout
+  errcnt : l'.errcnt = l.errcnt
+  file : l'.file = l.file
+  inPattern : l'.inPattern = l.inPattern
+  items : l'.items = l.items
+  state : l'.state = l.state
+  fault : l'.fault = l.fault
+
+theorem Frame.frameG {l l' : Lexer} (h : Frame l l') : FrameG l l' :=
+  ⟨h.errout, h.errcnt, h.file, h.inPattern, h.items, h.state, h.fault⟩
+
+theorem FrameG.trans {a b c : Lexer} (h1 : FrameG a b) (h2 : FrameG b c) : FrameG a c :=
+  ⟨h2.errout.trans h1.errout, h2.errcnt.trans h1.errcnt, h2.file.trans h1.file,
+   h2.inPattern.trans h1.inPattern, h2.items.trans h1.items, h2.state.trans h1.state, h2.fault.trans h1.fault⟩
+
+theorem FrameG.ready {file : List UInt8} {l l' : Lexer} (h : FrameG l l') (hr : Ready file l) : Ready file l' :=
+  ⟨h.items.trans hr.items, h.errout.trans hr.errout, h.errcnt.trans hr.errcnt, h.fault.trans hr.fault,
+   h.file.trans hr.file⟩
+
+/-- `groundStart`: the white space is skipped, the token starts here -/
+theorem groundStart_chars (l : Lexer) (pre bl suf' : List Char) (hbl : ∀ x ∈ bl, isSpace x = true)
+    (hs : ∀ c r, suf' = c :: r → isSpace c = false) (hc : Cur l pre (bl ++ suf')) (hp : PosN l pre (bl ++ suf')) :
+    Cur (groundStart l) (pre ++ bl) suf' ∧ Pos (groundStart l) (pre ++ bl) ∧
+    (groundStart l).start = (encodeChars (pre ++ bl)).length ∧
+    (groundStart l).sline = lineAfter (pre ++ bl) ∧ (groundStart l).scol = colAfter (pre ++ bl) ∧
+    FrameG l (groundStart l) := by
+  obtain ⟨a1, a2, a3⟩ := acceptRun_chars l pre bl suf' hbl hs hc hp
+  unfold groundStart consume Lexer.pos
+  simp only
+  refine ⟨⟨a1.before, a1.rest, a1.line⟩, ⟨a2.col, a2.tcol⟩, ?_, a1.line, a2.col, ?_⟩
+  · show (acceptRun l).2.before.length = _
+    rw [a1.before]; simp
+  · exact ⟨a3.errout, a3.errcnt, a3.file, a3.inPattern, a3.items, a3.state, a3.fault⟩
+
+/-- between two tokens -/
+structure Gnd (file : List UInt8) (l : Lexer) (pre suf : List Char) : Prop where
+  cur : Cur l pre suf
+  posn : PosN l pre suf
+  ready : Ready file l
+  state : l.state = .ground
+
+/-- popping the only queued token -/
+theorem nextTokenLoop_pop1 (f : Nat) (l : Lexer) (t : Token) (h : l.items = [t]) :
+    nextTokenLoop (f + 1) l = (some t, { l with items := [] }) := nextTokenLoop_pop f l t [] h
+
+theorem nextTokenLoop_ground (f : Nat) (l : Lexer) (hi : l.items = []) (hs : l.state = .ground) :
+    nextTokenLoop (f + 1) l = nextTokenLoop f (lexGround l) := by
+  rw [nextTokenLoop, hi, hs]
+
+theorem nextTokenLoop_qstring (f : Nat) (l : Lexer) (hi : l.items = []) (hs : l.state = .qstring) :
+    nextTokenLoop (f + 1) l = nextTokenLoop f (lexQString l) := by
+  rw [nextTokenLoop, hi, hs]
+
+theorem nextTokenLoop_unquoted (f : Nat) (l : Lexer) (hi : l.items = []) (hs : l.state = .unquoted) :
+    nextTokenLoop (f + 1) l = nextTokenLoop f (lexUnquoted l) := by
+  rw [nextTokenLoop, hi, hs]
+
+theorem nextTokenLoop_done (f : Nat) (l : Lexer) (hi : l.items = []) (hs : l.state = .done) :
+    nextTokenLoop (f + 1) l = (none, l) := by
+  rw [nextTokenLoop, hi, hs]
+
 end Goyang.Lemmas.LexSim
